@@ -59,7 +59,10 @@ def scenarios(tier, seed=0):
     else:
         for ck in CROPS:
             # full product for the calendar and the thermal crop; every 12th permutation for the other two crop kinds
-            for p, e, ix, r in itertools.product(perms if ck in ("calendar", "thermal") else perms[::12], EXTRA, INDEX, ROWS):
+            for p, e, ix, r in itertools.product(perms if ck in ("calendar", "thermal") else perms[::12], EXTRA, [i for i in INDEX if i not in NONUNIQUE], ROWS):
+                yield {"crop": ck, "perm": list(p), "extra": e, "index": ix, "rows": r}
+            # repeated index labels: every 10th permutation
+            for p, e, ix, r in itertools.product(perms[::10], EXTRA, NONUNIQUE, ROWS):
                 yield {"crop": ck, "perm": list(p), "extra": e, "index": ix, "rows": r}
 
 
@@ -361,10 +364,10 @@ def run(scn):
 def describe(tier):
     return {
         "rule": "ALL 120 permutations of the five required columns; unrelated extra columns at the front / middle / end, and one with NaN gaps; index {RangeIndex, shifted by 1000, reversed labels, "
-                "string labels, Date index}; 400 extra leading / trailing rows / both, also with a gap of missing days, a duplicated row or dropped-but-not-re-indexed rows outside the window; " + ("each factor alone against the identity plus three combined cases" if tier == "quick" else "the FULL product (120 x 6 x 8 x 8 = 46080 tables per crop; every 12th permutation for the two extra crop kinds)")
+                "string labels, Date index, and REPEATED labels: restarting every calendar year, one constant station id, rows concatenated without ignore_index}; 400 extra leading / trailing rows / both, also with a gap of missing days, a duplicated row or dropped-but-not-re-indexed rows outside the window; " + ("each factor alone against the identity, repeated labels x rows outside the window, plus three combined cases" if tier == "quick" else "the FULL product (120 x 6 x 5 x 8 = 28800 tables per crop plus 12 x 6 x 3 x 8 with repeated index labels; every 12th permutation for the two extra crop kinds)")
                 + "; x {calendar-day crop with threshold irrigation; thermal-time crop started before / on its planting date; calendar crop converted to thermal time (SwitchGDD=1)} over 2 seasons. "
                 "Oracle: all four tables bitwise equal to the run fed with the canonical table; plus a by-name oracle: for a thermal crop under degree-day methods 1-3 and a word with nights below the base temperature, the thermal calendar of EVERY season and the daily degree days must equal a reference computed from the columns named MinTemp/MaxTemp on the dates concerned; after the run the model's weather matrix must still hold, row by row, the record carrying that row's date; and the last of three seasons must be bitwise equal to a run of the same table started on that season's planting date (same dates at another row offset).",
-        "bound": "120 permutations complete; " + ("factors alone" if tier == "quick" else "full product 120 x 5 x 5 x 8") + " x 2 crops",
+        "bound": "120 permutations complete; " + ("factors alone" if tier == "quick" else "full product 120 x 6 x 5 x 8 (+ 12 x 6 x 3 x 8 with repeated labels)") + " x 2 crops",
         "exhaustive": True,
         "witnesses": WITNESSES,
         "assumptions": ["bitwise comparison on one interpreter/numpy build"],
